@@ -116,9 +116,12 @@ Definition lin_ticks := lin_ticks_gen lin_count.
 
 Inductive nice_res := NR_panic | NR_dom (mn mx : Q).
 
+(* a finite float64 magnitude: n * spacing does not overflow to +-Inf (nor is it NaN = 0 * Inf) *)
+Definition f64_fin (q : Q) : bool := Qltb (Qabs q) (qpow 2 1024).
+
 (* linear.go:152-173, repaired (D10): each end moves only outwards and only to a finite
    value — an end whose nice value would lie inside the domain (by rounding, within the
-   slack) or is not a number stays where it is *)
+   slack) or is not a finite float64 (the level's spacing overflows) stays where it is *)
 Definition lin_nice_gen (C : Z -> Z -> Q -> Q -> bool -> Z -> Z)
     (base : Z) (mn mx : Q) (o : tickopts) (guess : Z) : nice_res :=
   let '(mn, mx) := if Qeqb mn mx then (mn - (1 # 2), mx + (1 # 2))
@@ -131,7 +134,7 @@ Definition lin_nice_gen (C : Z -> Z -> Q -> Q -> bool -> Z -> Z)
           let sp := lin_spacing base eb l in
           let '(f, la) := lin_first_last mn mx sp true in
           let nmn := inject_Z f * sp in let nmx := inject_Z la * sp in
-          NR_dom (if Qleb nmn mn then nmn else mn) (if Qleb mx nmx then nmx else mx)
+          NR_dom (if f64_fin nmn && Qleb nmn mn then nmn else mn) (if f64_fin nmx && Qleb mx nmx then nmx else mx)
       | _ => NR_dom mn mx
       end
   end.
@@ -264,6 +267,12 @@ Definition log_ticks := log_ticks_gen log_count.
 (* float64 range: a positive value neither underflows to 0 nor overflows to +Inf *)
 Definition f64_pos_ok (q : Q) : bool := Qleb (qpow 2 (-1074)) q && Qltb q (qpow 2 1024).
 
+(* an end may move to the power b^(n 2^level) only if that is a positive finite float64 and -
+   at a level whose effective base b^(2^level) is itself beyond float64 - only for n = 0
+   (log.go Nice: `overflow && firstN != 0`): there 1 is the only representable power *)
+Definition log_end_ok (b k n : Z) (q : Q) : bool :=
+  (Qltb (qpow b k) (qpow 2 1024) || (n =? 0)%Z) && f64_pos_ok q.
+
 (* log.go:209-232, repaired (D10): each end moves only outwards and only to a positive finite
    float64 value *)
 Definition log_nice_gen (C : logexp -> bool -> Z -> Z) (b : Z) (mn mx : Q) (o : tickopts) : Q * Q :=
@@ -275,8 +284,8 @@ Definition log_nice_gen (C : logexp -> bool -> Z -> Z) (b : Z) (mn mx : Q) (o : 
       let '(f, la) := log_first_last e true l in
       let k := (2 ^ l)%Z in
       let nmn := qpow b (f * k) in let nmx := qpow b (la * k) in
-      let nemin := if f64_pos_ok nmn && Qleb nmn emin then nmn else emin in
-      let nemax := if f64_pos_ok nmx && Qleb emax nmx then nmx else emax in
+      let nemin := if log_end_ok b k f nmn && Qleb nmn emin then nmn else emin in
+      let nemax := if log_end_ok b k la nmx && Qleb emax nmx then nmx else emax in
       if neg then (- nemax, - nemin) else (nemin, nemax)
   | _ => (mn, mx)
   end.
